@@ -21,7 +21,7 @@ def run(ctx):
     db = ctx.db
     f = db.fn('gdstk::offset', file_suffix='src/clipper_tools.cpp')
     ctx.touch(f)
-    tables.check_exhaustive(ctx, db, f, 'gdstk::OffsetJoin')
+    ctx.attempt(tables.check_exhaustive, ctx, db, f, 'gdstk::OffsetJoin')
     sw = tables.switches_on(f, 'OffsetJoin')[0]
     vals = {c['v']: c['n'] for c in db.enum('gdstk::OffsetJoin')['consts']}
     ren = clone.Renamer(f, params_by_name=True)
@@ -61,13 +61,13 @@ def run(ctx):
         ctx.check(ok, 'R-PAIRCALL', 'offset/union-then-offset', iff.loc(), 'with use_union the polygons are unioned (non-zero) first and only the unioned paths are offset', 'union branch: %s' % seq)
         ok = re.match(r'^v\d+\.AddPaths\(%s, v\d+, etClosedPolygon\)$' % orig, el.strip()) is not None
         ctx.check(ok, 'R-PAIRCALL', 'offset/no-union', iff.loc(), 'without use_union the original paths are offset directly')
-    C05.check_tree(ctx, db)
-    C05.check_conversions(ctx, db)
-    C05.check_overflow(ctx, db)
+    ctx.attempt(C05.check_tree, ctx, db)
+    ctx.attempt(C05.check_conversions, ctx, db)
+    ctx.attempt(C05.check_overflow, ctx, db)
     nf = C05.check_forwarding(ctx, db, 'gdstk::offset', 'offset')
     ctx.require('R-EFFECT offset convenience overloads', nf, 1)
     from . import C14
-    C14.check_translation_invariance(ctx, db)   # polygon_to_path orients every operand by the sign of signed_area
+    ctx.attempt(C14.check_translation_invariance, ctx, db)# polygon_to_path orients every operand by the sign of signed_area
 
 
 MANIFEST = dict(
